@@ -1067,3 +1067,171 @@ Proof.
   - destruct (p_min p >? p_max p) eqn:E2; lia.
   - destruct (x >? p_max p) eqn:E2; lia.
 Qed.
+
+(* ------------------------------------------------------------------ *)
+(* The token request of a Bearer challenge, and auth.Client.Do with it spelled out *)
+
+Lemma fetch_token_attempts p cn tb tsc t0 :
+  1 <= Z.of_nat (length (attempts (k_trace (fetch_token p cn tb tsc t0)))) <= maxr p + 1.
+Proof. unfold fetch_token. cbn [k_trace]. apply round_trip_attempts. Qed.
+
+(* every attempt of the token request carries the whole form (as far as the service reads it) *)
+Lemma fetch_token_bodies p cn tb tsc t0 :
+  wf_body tb -> bodies_ok tb tsc 0 (attempts (k_trace (fetch_token p cn tb tsc t0))).
+Proof.
+  intro Hwf. unfold fetch_token. cbn [k_trace].
+  destruct (round_trip_bodies_gen p cn tb tsc 0%nat (init_state tb) t0 Hwf eq_refl) as (B & _). exact B.
+Qed.
+
+Lemma token_ok_not_ctx r : token_ok r = true -> r <> RCtx.
+Proof. destruct r; cbn; congruence. Qed.
+Lemma token_error_ctx r : r = RCtx -> token_error r = RCtx.
+Proof. intros ->. reflexivity. Qed.
+
+Lemma auth_do_tok_attempts p cn bd sc tb tsc :
+  let a := auth_do_tok p cn bd sc tb tsc in
+  1 <= Z.of_nat (length (attempts (ak_first a))) <= maxr p + 1 /\
+  Z.of_nat (length (attempts (ak_token a))) <= maxr p + 1 /\
+  Z.of_nat (length (attempts (ak_second a))) <= maxr p + 1.
+Proof.
+  unfold auth_do_tok.
+  pose proof (round_trip_attempts p cn bd (init_state bd) sc 0) as H1. cbv zeta in H1.
+  set (o1 := round_trip p cn bd (init_state bd) sc 0) in *.
+  assert (Hm : 0 <= maxr p + 1) by (unfold maxr; lia).
+  destruct (challenged (o_res o1));
+    [|cbn [ak_first ak_token ak_second attempts length]; repeat split; try apply H1; exact Hm].
+  assert (Hk : Z.of_nat (length (attempts (k_trace
+             (if bearer_challenged (o_res o1) then fetch_token p cn tb tsc (o_time o1)
+              else mkTok true (o_res o1) [] (o_time o1) tsc)))) <= maxr p + 1).
+  { destruct (bearer_challenged (o_res o1)); [apply fetch_token_attempts|cbn; exact Hm]. }
+  set (k := if bearer_challenged (o_res o1) then fetch_token p cn tb tsc (o_time o1)
+            else mkTok true (o_res o1) [] (o_time o1) tsc) in *.
+  destruct (k_ok k); [|cbn [ak_first ak_token ak_second attempts length]; repeat split; try apply H1; auto].
+  destruct (rewind bd (o_st o1)) as [st2| |]; cbn [ak_first ak_token ak_second attempts length];
+    try (repeat split; try apply H1; auto).
+  pose proof (round_trip_attempts p cn bd st2 (o_script o1) (k_time k)) as H2. cbv zeta in H2. apply H2.
+Qed.
+
+(* the registry's requests: first send and re-send carry the whole body; the token service's
+   requests carry the whole form *)
+Lemma auth_do_tok_bodies p cn bd sc tb tsc :
+  wf_body bd -> wf_body tb ->
+  let a := auth_do_tok p cn bd sc tb tsc in
+  bodies_ok bd sc 0 (attempts (ak_first a) ++ attempts (ak_second a)) /\
+  bodies_ok tb tsc 0 (attempts (ak_token a)).
+Proof.
+  intros Hwf Hwt. unfold auth_do_tok.
+  destruct (round_trip_bodies_gen p cn bd sc 0%nat (init_state bd) 0 Hwf eq_refl) as (B1 & S1 & N1).
+  cbn [skipn] in *.
+  set (o1 := round_trip p cn bd (init_state bd) sc 0) in *.
+  assert (Hnil : bodies_ok tb tsc 0 []) by (intros i t g Hi; destruct i; discriminate).
+  destruct (challenged (o_res o1));
+    [|cbn [ak_first ak_token ak_second attempts]; rewrite app_nil_r; split; assumption].
+  assert (Hk : bodies_ok tb tsc 0 (attempts (k_trace
+             (if bearer_challenged (o_res o1) then fetch_token p cn tb tsc (o_time o1)
+              else mkTok true (o_res o1) [] (o_time o1) tsc)))).
+  { destruct (bearer_challenged (o_res o1)); [apply fetch_token_bodies; exact Hwt|exact Hnil]. }
+  set (k := if bearer_challenged (o_res o1) then fetch_token p cn tb tsc (o_time o1)
+            else mkTok true (o_res o1) [] (o_time o1) tsc) in *.
+  destruct (k_ok k); [|cbn [ak_first ak_token ak_second attempts]; rewrite app_nil_r; split; assumption].
+  destruct (rewind bd (o_st o1)) as [st2| |] eqn:Hrw; cbn [ak_first ak_token ak_second attempts];
+    try (rewrite app_nil_r; split; assumption).
+  assert (Hf : s_rest st2 = bdata bd) by (eapply rewind_fresh; eauto).
+  cbn [Nat.add] in S1. rewrite S1.
+  destruct (round_trip_bodies_gen p cn bd sc (length (attempts (o_trace o1))) st2 (k_time k) Hwf Hf)
+    as (B2 & _ & _).
+  split; [apply bodies_ok_app; assumption|exact Hk].
+Qed.
+
+(* a body that cannot be replayed: one request to the registry, whatever the token service does *)
+Lemma auth_do_tok_not_replayable p cn bd sc tb tsc :
+  (forall st', rewind bd st' = RwNoGetBody \/ rewind bd st' = RwGetBodyErr) ->
+  let a := auth_do_tok p cn bd sc tb tsc in
+  length (attempts (ak_first a)) = 1%nat /\ ak_second a = [].
+Proof.
+  intro Hrw. unfold auth_do_tok.
+  destruct (round_trip_not_replayable p cn bd (init_state bd) sc 0 Hrw)
+    as (bh & sc' & got & st1 & o & t1 & _ & _ & Htr & _).
+  set (o1 := round_trip p cn bd (init_state bd) sc 0) in *.
+  destruct (challenged (o_res o1)); [|cbn [ak_first ak_second]; rewrite Htr; auto].
+  destruct (k_ok _); [|cbn [ak_first ak_second]; rewrite Htr; auto].
+  destruct (Hrw (o_st o1)) as [E|E]; rewrite E; cbn [ak_first ak_second]; rewrite Htr; auto.
+Qed.
+
+(* cancellation: in every send to the registry and in the token request every attempt but the
+   first starts before the context ends; the call is over when the context ends; a pause of
+   any of them that the context ends in ends Do with the context's error at that instant *)
+Definition authk_cancel_post (tc : Z) (a : authk_out) : Prop :=
+  Forall (fun x => fst x < tc) (tl (attempts (ak_first a))) /\
+  Forall (fun x => fst x < tc) (tl (attempts (ak_token a))) /\
+  Forall (fun x => fst x < tc) (tl (attempts (ak_second a))) /\
+  ak_time a <= Z.max 0 tc /\
+  Forall (fun pd => fst pd + snd pd < tc \/ (ak_res a = RCtx /\ ak_time a = Z.max (fst pd) tc))
+         (pauses (ak_first a) ++ pauses (ak_token a) ++ pauses (ak_second a)).
+
+Lemma auth_do_tok_cancel p bd sc tb tsc tc dl :
+  authk_cancel_post tc (auth_do_tok p (Some (tc, dl)) bd sc tb tsc).
+Proof.
+  unfold auth_do_tok, authk_cancel_post.
+  pose proof (round_trip_cancel p bd (init_state bd) sc 0 tc dl) as C1.
+  set (o1 := round_trip p (Some (tc, dl)) bd (init_state bd) sc 0) in *.
+  destruct (challenged (o_res o1)) eqn:Hch.
+  2:{ cbn [ak_first ak_token ak_second ak_res ak_time attempts pauses tl]. rewrite !app_nil_r.
+      destruct C1 as (A1 & T1 & P1 & _). repeat split; auto. }
+  pose proof (cancel_post_pauses_done _ _ _ C1 (challenged_not_ctx _ Hch)) as D1.
+  destruct C1 as (A1 & T1 & _ & _).
+  destruct (bearer_challenged (o_res o1)).
+  - (* token request *)
+    unfold fetch_token.
+    pose proof (round_trip_cancel p tb (init_state tb) tsc (o_time o1) tc dl) as CK.
+    set (ok := round_trip p (Some (tc, dl)) tb (init_state tb) tsc (o_time o1)) in *.
+    cbn [k_ok k_res k_trace k_time].
+    destruct (token_ok (o_res ok)) eqn:Hok.
+    + pose proof (cancel_post_pauses_done _ _ _ CK (token_ok_not_ctx _ Hok)) as DK.
+      destruct CK as (AK & TK & _ & _).
+      destruct (rewind bd (o_st o1)) as [st2| |];
+        cbn [ak_first ak_token ak_second ak_res ak_time attempts pauses tl]; rewrite ?app_nil_r;
+        try (repeat split; auto; [lia|apply Forall_app; split; apply pauses_done_weaken; assumption]).
+      destruct (round_trip_cancel p bd st2 (o_script o1) (o_time ok) tc dl) as (A2 & T2 & P2 & _).
+      repeat split; auto; [lia|].
+      apply Forall_app. split; [apply pauses_done_weaken; exact D1|].
+      apply Forall_app. split; [apply pauses_done_weaken; exact DK|exact P2].
+    + cbn [ak_first ak_token ak_second ak_res ak_time attempts pauses tl]. rewrite app_nil_r.
+      destruct CK as (AK & TK & PK & _).
+      repeat split; auto; [lia|].
+      apply Forall_app. split; [apply pauses_done_weaken; exact D1|].
+      eapply Forall_impl; [|exact PK]. intros pd [A|[A B]]; [left; exact A|right].
+      split; [apply token_error_ctx; exact A|exact B].
+  - cbn [k_ok k_res k_trace k_time].
+    destruct (rewind bd (o_st o1)) as [st2| |];
+      cbn [ak_first ak_token ak_second ak_res ak_time attempts pauses tl]; rewrite ?app_nil_r;
+      try (repeat split; auto; apply pauses_done_weaken; exact D1).
+    destruct (round_trip_cancel p bd st2 (o_script o1) (o_time o1) tc dl) as (A2 & T2 & P2 & _).
+    repeat split; auto; [lia|].
+    apply Forall_app. split; [apply pauses_done_weaken; exact D1|exact P2].
+Qed.
+
+(* the model used so far (token request served at once) is this one with a token service
+   that answers 200 immediately, for a policy that does not retry that answer *)
+Lemma generic_retry_stop p attempt o : p_pred p o = PStop -> generic_retry p attempt o = DStop.
+Proof. intro H. unfold generic_retry. destruct (attempt >=? p_max_retry p); [reflexivity|]. now rewrite H. Qed.
+
+Lemma auth_do_tok_instant p bd sc tb :
+  p_pred p (OStatus 200 [] 0%N) = PStop ->
+  let a := auth_do false p None bd sc in
+  let k := auth_do_tok p None bd sc tb [] in
+  ak_res k = a_res a /\ ak_first k = a_first a /\ ak_second k = a_second a /\ ak_time k = a_time a.
+Proof.
+  intro Hp. unfold auth_do, auth_do_at, auth_do_tok.
+  set (o1 := round_trip p None bd (init_state bd) sc 0).
+  destruct (challenged (o_res o1)); [|cbn; auto].
+  assert (Hk : forall t0, k_ok (fetch_token p None tb [] t0) = true /\ k_time (fetch_token p None tb [] t0) = t0).
+  { intro t0. unfold fetch_token, round_trip, rt_fuel. cbn [rt_loop]. unfold rt_step. cbn [next_beh].
+    destruct (serve_none tb (init_state tb) default_beh t0) as (g & s1 & Hs). rewrite Hs.
+    cbn [b_out default_beh]. rewrite (generic_retry_stop p 0 _ Hp).
+    cbn [k_ok k_time o_res o_time result_of_outcome token_ok b_lat default_beh]. split; [reflexivity|lia]. }
+  destruct (bearer_challenged (o_res o1)).
+  - destruct (Hk (o_time o1)) as (-> & ->).
+    destruct (rewind bd (o_st o1)); cbn; auto.
+  - cbn [k_ok k_time]. destruct (rewind bd (o_st o1)); cbn; auto.
+Qed.
